@@ -58,6 +58,10 @@ func NewController(addr api.WarehouseLocation) (warehouse.BlobstoreController, e
 	default:
 		return whCtrl, Errorf(rio.ErrUsage, "unsupported scheme in warehouse addr: %q (valid options are 'file' or 'ca+file')", u.Scheme)
 	}
+	if u.Opaque != "" || (u.Host == "" && u.Path == "") {
+		// "file:rel/path" parses as an opaque URL with no path at all: joined, that would be the working directory.
+		return whCtrl, Errorf(rio.ErrUsage, "warehouse addr %q names no path (the form is %s://path)", addr, u.Scheme)
+	}
 	absPth, err := filepath.Abs(filepath.Join(u.Host, u.Path))
 	if err != nil {
 		// A relative address cannot be resolved when the working directory is gone.
